@@ -96,6 +96,7 @@ var (
 	fBudget    = flag.Int("budget", 1500, "with -shrink: execution budget")
 	fSamples   = flag.Int("samples", 2, "rendered sample runs to keep")
 	fRefEvery  = flag.Int("refrecycle", 16, "C13: replace the reference process by a new one after this many runs (0 = never)")
+	fHitCov    = flag.Int("hitcov", 0, "workload self-check: per form of rule line, how many generated lines ever appear in an answer (this many runs)")
 	fRefSrv    = flag.Bool("refserver", false, "serve reference answers on stdin/stdout (started by a C13 worker)")
 	fNoRef     = flag.Bool("noref", false, "compute references in-process")
 	fRunList   = flag.String("runlist", "", "execute exactly these run indices, in this order, in this one process (replay of a process history)")
@@ -129,6 +130,8 @@ func main() {
 		props.ServeRef(os.Stdin, os.Stdout, d)
 		os.RemoveAll(d)
 		return
+	case *fHitCov > 0:
+		fmt.Print(props.HitCoverage(*fSeed, *fHitCov, *fDir))
 	case *fReplay != "":
 		doReplay()
 	case *fShrink != "":
